@@ -44,7 +44,9 @@ CLAIMS = {
         'For executed histories, every single-fault injection point (each numbered file operation of each input: open of the '
         'temp file, writes, syncs, closes, remove, rename, reopen) is run in a child process: no panic, every fed event is '
         'forwarded, and after the fault the changes made later are what a restart recovers (the shim clock is moved past the '
-        '30 s retry interval); TLC checks the same on the model exhaustively with one fault anywhere.',
+        '30 s retry interval); a directed class makes every rename (or sync) of the temp file fail during one compacting input '
+        '(fault window), lets the recorded members depart and judges what the retry compaction installs; TLC checks the '
+        'single-fault case on the model exhaustively with one fault anywhere.',
         _TRUST, _TECH, '5 C12',
     ),
     'C13': (
@@ -677,8 +679,40 @@ def run_c12(ctx, binary):
         steps = [st for st in steps if st["a"] != "shutdown"]
         bases.append(mk(i, close_session(steps + SUFFIX), [0, 300, 0, 128 * 1024][i % 4], False,
                         "hostile" if i % 3 else "plain", "small", i, torn=0))
-    # pass 1: fault-free runs tell how many file operations each input performs
-    summ0 = run_all(ctx, binary, bases, "c12base")
+    # fault WINDOW inside a compaction, then the state SHRINKS, then the retry: family-built histories whose last clock line
+    # crosses a learned threshold; in the judged run every rename (or every sync) of the temp file fails while that input
+    # is handled (the threshold compaction AND the immediate recovery compaction fail, a stale <snap>.compact stays
+    # behind, the handles are closed), the recorded members depart, the retry compaction installs the smaller image
+    learn = []
+    for i in range(16 if th else 6):
+        nm, other, ad = 1 + i % NN, 1 + (i + 1) % NN, 1 + (i // 2) % NA
+        # two members in the image of the failed compaction; some event and query clocks; wide times (equal digit counts)
+        pre = [{"a": "started"}, feed(1, [[nm, ad]]), feed(1, [[other, 1 + (ad % NA)]]),
+               feed(6, [], 1), feed(6, [], 2), feed(6, [], 3), feed(7, [], 1 + i % 3)]
+        for v in range(GEN_MAXT + 1, GEN_MAXT + 15):
+            pre += [{"a": "wit", "v": v}, {"a": "tick", "fail": 0}]
+        pre += [{"a": "wit", "v": GEN_MAXT + 15}]
+        if i % 3 != 2:
+            pre += [{"a": "adv", "d": 6}]
+        learn.append((i, pre, nm, other,
+                      mk(600 + i, close_session(pre + [{"a": "tick", "fail": 0}]), 128 * 1024, False,
+                         "hostile" if i % 2 else "plain", "wide", 600 + i, torn=0)))
+    # pass 1: fault-free runs tell how many file operations each input performs (and the log sizes of the learn histories)
+    summ0 = run_all(ctx, binary, bases + [l[4] for l in learn], "c12base")
+    wscheds = []
+    for (i, pre, nm, other, ls) in learn:
+        ent = [e for e in summ0["sizes"].get(ls["id"], []) if e["step"] == len(pre)]
+        if not ent or ent[0]["after"] is None or ent[0]["before"] < 256 * max(ent[0]["n"], 1):
+            continue
+        for fo in ("rename:tmp", "sync:tmp"):
+            steps = pre + [{"a": "tick", "fail": 0, "failop": fo},
+                           # the first append after the window flushes into the closed file: sticky bufio error, and the
+                           # recovery compaction is throttled for 30 s; meanwhile the state shrinks and the clocks move on
+                           {"a": "adv", "d": 6}, feed(6, [], MAXT - 1), feed(3, [[nm, 0]]), feed(2, [[other, 0]]),
+                           {"a": "wit", "v": GEN_MAXT + 16}, {"a": "tick", "fail": 0},
+                           {"a": "adv", "d": 301}, feed(7, [], MAXT),          # -> the retry compaction installs the smaller image
+                           {"a": "shutdown", "fail": 0}, {"a": "started"}]
+            wscheds.append(mk(700 + len(wscheds), steps, ent[0]["before"], False, ls["cfg"]["cls"], "wide", ls["cfg"]["cid"], torn=0))
     points = []
     for s in bases:
         for (step, nops) in summ0["opcount"].get(s["id"], []):
@@ -694,6 +728,7 @@ def run_c12(ctx, binary):
         steps = [dict(st) for st in s["steps"]]
         steps[step]["fail"] = k
         scheds.append(mk(1000 + n, steps, s["cfg"]["mcs"], False, s["cfg"]["cls"], s["cfg"]["tcls"], s["cfg"]["cid"], torn=0))
+    scheds += wscheds
     summ = run_all(ctx, binary, scheds, "c12")
     viol, seen = confirm(ctx, binary, summ, {s["id"]: s for s in scheds}, "C12_")
     mc, reach = bg.join()
@@ -704,7 +739,7 @@ def run_c12(ctx, binary):
            {"model_constants": "exhaustive: 2 names x %d address(es), times 0..1, <=4 inputs, one fault at any operation of any "
                                "input, thresholds {0,60,never}" % (2 if th else 1),
             "evaluations": summ["faults"], "injection_points_total": total_points, "injection_points_run": len(scheds),
-            "base_histories": len(bases)}, ASSUME)
+            "base_histories": len(bases), "fault_window_then_shrink_schedules": len(wscheds)}, ASSUME)
 
 
 # ----------------------------------------------------------------------------------------- C13
